@@ -180,13 +180,15 @@ def run(ck):
     HANDLERS = {CONN + n_ for n_ in ("handleResponsePacket", "handleError", "handleTimeout", "close", "connect")}
     for name in ("handleResponsePacket", "handleError", "handleTimeout"):
         fn = lib.single(prog, CONN + name)
-        guards = [b for b in fn.blocks.values() if b.term and b.term.get("k") == "if" and strip_tmpl((b.term.get("core") or {}).get("f") or "") == RE and not b.term.get("cmp")]
+        guards = [b for b in fn.blocks.values() if b.term and b.term.get("k") in ("if", "land", "while") and strip_tmpl((b.term.get("core") or {}).get("f") or "") == RE and not b.term.get("cmp")]
         ck.require(guards, "`if (requestEntry)` not found in %s" % name)
         gb = guards[0]
         inside = gb.succs[1] if gb.term.get("neg") else gb.succs[0]
-        # all other accesses of requestEntry are reached only through the guard's true edge
-        acc = [e for e in fn.events("member") if is_req_access(e) and e.block != gb.id]
-        okg = all(cfg.edge_dominates(fn, gb.id, 1 if gb.term.get("neg") else 0, e) for e in acc) and bool(acc)
+        # all other accesses of requestEntry are reached only through the non-null edge of such a test (`if (requestEntry)`, or the left
+        # operand of `requestEntry && ...`)
+        gids = {g_.id for g_ in guards}
+        acc = [e for e in fn.events("member") if is_req_access(e) and e.block not in gids]
+        okg = all(any(cfg.edge_dominates(fn, g_.id, 1 if g_.term.get("neg") else 0, e) for g_ in guards) for e in acc) and bool(acc)
         ck.ob("C15-R3", "%s/guarded-by-requestEntry" % name, okg, "%s:%s" % (fn.file, gb.term.get("l")), fn, "%d accesses, all under `if (requestEntry)`" % len(acc))
 
         def settle(ev):
@@ -265,6 +267,17 @@ def run(ck):
                     if not any(cfg.ev_dominates(dg, d_, r) for d_ in g_.events("call") if is_disarm(d_)):
                         okt = False
         ck.ob("C15-R3", "%s/timer-released-first" % name, okt, fn.loc, fn, "timer->disarm() then releaseTimer before the request is settled")
+        # a request that is still pending keeps its time-out armed: once the timer is disarmed, every way on settles the request
+        lifted_settle = summ15.lift_must(lambda e: bool(settle(e)), "settle-request")
+        for g_ in lib.region(prog, fn, within=lambda g_: g_.base.startswith(CONN) and g_.base not in HANDLERS):
+            for d_ in [e for e in g_.events("call") if is_disarm(e)]:
+                if g_.id != fn.id:
+                    continue        # a helper: its callers are looked at where they disarm through it (may-summary below)
+                loose = [x for x in cfg.exits_without(fn, lifted_settle, start_block=d_.block, start_idx=d_.idx + 1) if x.kind != "throw"]
+                ck.ob("C15-R3", "%s/disarm-only-when-settling" % name, not loose, d_.loc, fn,
+                      "after timer->disarm() every path settles the request" if not loose else
+                      "after timer->disarm() at line %s the handler can return with the request still pending: nothing will reject it when "
+                      "the server stalls, so its promise may never be settled" % d_.get("l"))
         # R4
         dones = [e for e in fn.events("call") if done_direct(e) or done_via_helper(e)]
         for e in dones:
